@@ -46,7 +46,7 @@ type caseA struct {
 var hostile = []string{"", "0", "-1", "1", "2", "1000", "1001", "10000", "10001", "2147483647", "2147483648", "4294967296", "-2147483649",
 	"9223372036854775807", "9223372036854775808", "-9223372036854775808", "18446744073709551616", "NaN", "1e9", "0x10", "00", "+1", " 1",
 	"%", "%zz", "..", "../..", "/", "//", "a/", "/a", "null", "true", "[]", "{}", "<x/>", "&amp;", "\"", "'", "é", "‮", "a b", "a=b", "a,b",
-	"bytes=0-", "bytes=-1", "bytes=0-0,1-1", "bytes=9223372036854775807-", "Enabled", "COMPLIANCE", "GOVERNANCE", "ON", "OFF",
+	"bytes=0-", "bytes=-1", "bytes=-99999999", "bytes=-9223372036854775807", "bytes=-0", "bytes=7-3", "bytes=0-0,1-1", "bytes=9223372036854775807-", "Enabled", "COMPLIANCE", "GOVERNANCE", "ON", "OFF",
 	"2020-01-01T00:00:00Z", "9999-12-31T23:59:59Z", "0000-00-00T00:00:00Z", "not-a-date", "url", "ETag", "ETag,", ",", "Checksum,ObjectParts",
 	"CRC32", "crc32", "SHA256", "CRC64NVME", "FULL_OBJECT", "COMPOSITE", "AAAAAA==", "!!!!", "private", "public-read", "bucket-owner-full-control",
 	"alice", "alice,bob", "alice,,bob", ",", "nobody", "all-users", "id=alice", "id=", "id=nobody", "uri=http://acs.amazonaws.com/groups/global/AllUsers", "emailAddress=a@b", "id=alice,id=bob", "COPY", "REPLACE",
@@ -472,6 +472,32 @@ func execA(c caseA) (o outcome, err error) {
 	if bad := wellFormed(req.Method, rr.r); bad != "" {
 		return o, fmt.Errorf("%s: answer is not well-formed: %s", pfx, bad)
 	}
+	// what an accepted request left behind must not trip the requests that come after it: when a state-changing
+	// request was answered with success, a round of ordinary, valid requests on the same bucket follows (in-process
+	// worlds only: they are made for the case and thrown away with it)
+	if !c.Proc && rr.r.Status/100 == 2 && req.Method != "GET" && req.Method != "HEAD" {
+		for _, opn := range aftermath {
+			ac := caseA{Versioning: c.Versioning, Sidecar: c.Sidecar, Spec: cat.Spec{Op: opn, Bucket: c.Spec.Bucket, Key: "obj"}, Caller: "root"}
+			if cat.Lookup(opn).Level == "object" && (opn == "PutObject" || opn == "CopyObject") {
+				ac.Spec.Key = "new"
+			}
+			areq, err := build(w.fx, ac)
+			if err != nil {
+				continue
+			}
+			ar, aerr := s3c.Do(w.t, areq)
+			if pe, ok := aerr.(*gw.PanicError); ok {
+				o.Site = pe.Site
+				return o, fmt.Errorf("%s: answered %d; afterwards a plain %s (%s %s) by root PANICS at %s: %s", pfx, rr.r.Status, opn, areq.Method, trunc([]byte(areq.WirePath())), pe.Site, pe.Value)
+			}
+			if aerr != nil {
+				continue
+			}
+			if bad := wellFormed(areq.Method, ar); bad != "" {
+				return o, fmt.Errorf("%s: answered %d; afterwards the answer to a plain %s (%s %s) by root is not well-formed: %s", pfx, rr.r.Status, opn, areq.Method, trunc([]byte(areq.WirePath())), bad)
+			}
+		}
+	}
 	// the gateway keeps serving other clients
 	probe := s3c.NewClient(w.t, gw.DefaultRoot)
 	pr, perr := probe.Call("GET", "/", nil, nil, nil)
@@ -483,6 +509,14 @@ func execA(c caseA) (o outcome, err error) {
 	}
 	return o, nil
 }
+
+// rangeForms: byte range specifications around and beyond every bound (the fixture's objects are a few dozen bytes long)
+var rangeForms = []string{"bytes=0-", "bytes=0-0", "bytes=-1", "bytes=-0", "bytes=-36", "bytes=-37", "bytes=-99999999", "bytes=-9223372036854775807", "bytes=-9223372036854775808",
+	"bytes=35-", "bytes=36-", "bytes=99999999-", "bytes=9223372036854775807-", "bytes=7-3", "bytes=0-99999999", "bytes=0-9223372036854775807", "bytes=0-0,1-1", "bytes=", "bytes", "bytes=-", "bytes=a-b", "items=0-1"}
+
+// aftermath: ordinary requests sent after an accepted state-changing request (reads first, then writes and deletes)
+var aftermath = []string{"HeadBucket", "ListObjectsV2", "ListObjectVersions", "GetObject", "HeadObject", "GetObjectAttributes", "GetObjectTagging", "GetBucketAcl", "GetBucketPolicy",
+	"GetObjectLockConfiguration", "GetBucketVersioning", "ListMultipartUploads", "PutObject", "CopyObject", "PutObjectTagging", "DeleteObjects", "DeleteObject"}
 
 func descr(c caseA) string {
 	var p []string
@@ -711,6 +745,8 @@ func TestC20Sweep(t *testing.T) {
 			sp.Bucket, sp.Key = "V", "ver"
 		case "PutObjectRetention", "PutObjectLegalHoldOn", "PutObjectLegalHoldOff", "GetObjectRetention", "GetObjectLegalHold":
 			sp.Bucket, sp.Key = "L", "locked"
+		case "PutObjectLockConfiguration", "GetObjectLockConfiguration":
+			sp.Bucket = "L" // the bucket with object lock: elsewhere the document is refused unread
 		}
 		return sp
 	}
@@ -723,7 +759,11 @@ func TestC20Sweep(t *testing.T) {
 			}
 		}
 		for _, n := range relHeader[key] {
-			for _, v := range numeric {
+			vals := numeric
+			if n == "Range" || n == "x-amz-copy-source-range" {
+				vals = append(append([]string(nil), numeric...), rangeForms...)
+			}
+			for _, v := range vals {
 				cases = append(cases, caseA{Versioning: true, Spec: target(e), Caller: "root", Muts: []mut{{Where: "header", Name: n, Value: v}}})
 			}
 		}
